@@ -89,7 +89,7 @@ def fwLine (toks : List String) : Option String := do
     requests: I (InjectFault) | W (ShouldFailAtomicWeak) | Y (yield) | S<f> (spawn fiber f) | L<d> (sleep_for d) |
               P<q> (park on queue q) | T<q>.<d> (timed park) | N<q> (notify_one) | A<q> (notify_all) | U (suspend) |
               K<f> (wake f) | X (exit)
-    outputs:  u | f0 | f1 | r<f> | r<f>t0 | r<f>t1 | idle | ub -/
+    outputs:  u | f0 | f1 | r<f> | r<f>,t0 | r<f>,t1 | idle | ub   (one flat comma separated list) -/
 
 def parseReq (s : String) : Option (Req Nat Nat) :=
   let rest := strDrop s 1
@@ -114,7 +114,7 @@ def showOut : Out Nat → String
   | .unit => "u"
   | .flag b => if b then "f1" else "f0"
   | .resumed f none => s!"r{f}"
-  | .resumed f (some b) => s!"r{f}t{if b then 1 else 0}"
+  | .resumed f (some b) => s!"r{f},t{if b then 1 else 0}"
   | .idle => "idle"
   | .ub => "ub"
 
@@ -133,8 +133,8 @@ def schedLine (toks : List String) : Option String := do
   let r := reqs.foldl (fun (so : St (List Nat) Nat Nat × List (List (Out Nat))) r =>
     match step streamEngine cfg so.1 r with
     | (s', o) => (s', o :: so.2)) (s0, [])
-  let outs := r.2.reverse.map fun o => ",".intercalate (o.map showOut)
-  pure s!"SCHED freq={freq} pick={pick} afail={afail} sleep={sleep} tick={tick} state={st} raws={raws} script={script} = {";".intercalate outs} used={r.1.rc}"
+  let outs := (r.2.reverse.map fun o => o.map showOut).flatten
+  pure s!"SCHED freq={freq} pick={pick} afail={afail} sleep={sleep} tick={tick} state={st} raws={raws} script={script} = {",".intercalate outs} used={r.1.rc}"
 
 def answer (line : String) : String :=
   let toks := line.splitOn " "
